@@ -18,7 +18,11 @@ CONSTANTS Tracks,        \* set of track names (strings)
           InitOrder,     \* sequence of the tracks whose init segment is uploaded before any media;
                          \* the other tracks are LATE: their init arrives at an arbitrary point
           ASOf,          \* [Tracks -> Nat] AdaptationSet of each track
-          UploadSets,    \* set of [Tracks -> Seq(Nat)]: the numbers each track uploads, in upload order
+          UploadSets,    \* set of [Tracks -> Seq(Int)]: what each track uploads, in upload order: n > 0 the segment with
+                         \* number n in full; -n an ABORTED upload of n whose body breaks inside the first fragment
+                         \* (refused, nothing taken); -(AbortLate + n) an aborted upload that breaks inside a later fragment
+                         \* of a chunked segment (refused, but the first fragment has been written to <track>/<n>).
+                         \* A later n in the sequence is the encoder's RETRY in full.
           Windows,       \* set of windowSize values computed at start (tsbd*timescale/dur + 1)
           InitWindow,    \* initialSegmentsWindow (8 in the code)
           Video,         \* the video tracks (deriveAndSetFrameRates looks at their buffers)
@@ -28,7 +32,9 @@ CONSTANTS Tracks,        \* set of track names (strings)
           FixCtrResize,    \* 058c844: seqCounters.resize to a smaller window keeps the newest counters and updates the fill
           FixDropBound,    \* 34c3a50: seqCounters.add bounds nrToDrop by the fill
           FixDeriveGuards, \* 3d9bf84: deriveAndSetBitrates / deriveAndSetFrameRates skip tracks without segments
-          FixLateTrack     \* cdab72e: a buffer created after start bumps _nrTracks; every Representation is checked
+          FixLateTrack,    \* cdab72e: a buffer created after start bumps _nrTracks; every Representation is checked
+          FixDeleteOnAccept \* NOT in the code yet (proposed_fixes/C17-delete-after-accept.diff; current code = FALSE): the handler
+                           \* removes <n - maxNrBufSegs> only when the upload has been accepted, not when its first fragment arrives
 VARIABLES upl,      \* the chosen element of UploadSets
           sw,       \* the chosen element of Windows
           pos,      \* [Tracks -> Nat] uploads sent so far per track
@@ -48,6 +54,11 @@ vars == <<upl, sw, pos, reg, bufs, ctr, started, nrTracks, latest, genWindow, ma
           panic, why, files, listedBad, post, hist>>
 
 Late == Tracks \ Range(InitOrder)
+AbortLate == 1000
+IsAbort(s) == s < 0
+IsLateAbort(s) == s < -AbortLate
+NrOf(s) == IF s > 0 THEN s ELSE IF s < -AbortLate THEN -s - AbortLate ELSE -s
+AbortKind(s) == IF s > 0 THEN 0 ELSE IF s < -AbortLate THEN 2 ELSE 1
 Zeros(n) == [j \in 1..n |-> 0]
 NewBuf(size) == [items |-> Zeros(size), size |-> size, n |-> 0, made |-> TRUE]
 NoBuf == [items |-> <<>>, size |-> 0, n |-> 0, made |-> FALSE]
@@ -162,7 +173,7 @@ MaxBufSegs == sw + 1
 Registered == Range(reg)
 \* Representations[0] of every AdaptationSet: the first registered track of the set
 FirstReps == { reg[i] : i \in { j \in DOMAIN reg : \A k \in 1..(j - 1) : ASOf[reg[k]] # ASOf[reg[j]] } }
-Rec(t, n) == IF RecordHist THEN Append(hist, [t |-> t, n |-> n]) ELSE hist
+Rec(t, s) == IF RecordHist THEN Append(hist, [t |-> t, n |-> NrOf(s), a |-> AbortKind(s)]) ELSE hist
 
 Choose == /\ sw = 0 /\ upl' \in UploadSets /\ sw' \in Windows
           /\ UNCHANGED <<pos, reg, bufs, ctr, started, nrTracks, latest, genWindow, masterDur, mpd, mpdReps,
@@ -171,7 +182,7 @@ Choose == /\ sw = 0 /\ upl' \in UploadSets /\ sw' \in Windows
 \* the init segment of a late track arrives (addInitDataAndUpdateTimescale: a Representation is appended)
 Register(t) ==
   /\ sw # 0 /\ ~panic /\ t \in Late /\ t \notin Registered
-  /\ reg' = Append(reg, t) /\ hist' = Rec(t, 0)
+  /\ reg' = Append(reg, t) /\ hist' = (IF RecordHist THEN Append(hist, [t |-> t, n |-> 0, a |-> 0]) ELSE hist)
   /\ UNCHANGED <<upl, sw, pos, bufs, ctr, started, nrTracks, latest, genWindow, masterDur, mpd, mpdReps,
                  panic, why, files, listedBad, post>>
 
@@ -184,6 +195,15 @@ Process(t) ==
      /\ IF t \notin Registered
         THEN \* "failed to find track data": answered 500, nothing stored, nothing queued
              UNCHANGED <<bufs, ctr, started, nrTracks, latest, genWindow, masterDur, mpd, mpdReps, panic, why, files, listedBad, post>>
+        ELSE IF IsAbort(s)
+        THEN \* Abort(t, n): the body breaks inside a box, the chunk parser fails, the upload is answered 500 and NO complete
+             \* record reaches the channel goroutine: a no-op on buffers, counters and the MPD.  If a first fragment had been
+             \* taken, the handler has created <track>/<n> (and made room for it) - storage only.
+             /\ UNCHANGED <<bufs, ctr, started, nrTracks, latest, genWindow, masterDur, mpd, mpdReps, panic, why, listedBad>>
+             /\ files' = IF ~IsLateAbort(s) THEN files
+                          ELSE [files EXCEPT ![t] = IF masterDur # 0 /\ ~FixDeleteOnAccept
+                                                    THEN (@ \cup {NrOf(s)}) \ {NrOf(s) - MaxBufSegs} ELSE @ \cup {NrOf(s)}]
+             /\ post' = IF IsLateAbort(s) /\ masterDur # 0 THEN post \cup {t} ELSE post
         ELSE
         LET files1 == [files EXCEPT ![t] = IF masterDur # 0 THEN (@ \cup {s}) \ {s - MaxBufSegs} ELSE @ \cup {s}]
             b0 == IF ~bufs[t].made THEN NewBuf(genWindow) ELSE bufs[t]
